@@ -16,8 +16,11 @@ META = dict(
     watchdog_s={"quick": 1500, "thorough": 5400},
     evaluations_counter="cases",
     min={"sequences": 200, "scale_updates_checked": 1000, "adopted_scales_checked": 50, "saturation_checks": 100},
-    anchors=["calibrate.py:Calibration.calibrate_input", "calibrate.py:Calibration.calibrate_output",
-             "calibrate.py:_updated_scale", "calibrate.py:absmax_scale", "calibrate.py:Calibration.__enter__"],
+    anchors=["calibrate.py:Calibration.calibrate_input",
+             "calibrate.py:Calibration.calibrate_output",
+             "calibrate.py:_updated_scale",
+             "calibrate.py:absmax_scale",
+             "calibrate.py:Calibration.__enter__"],
     rule="case = one calibration history: model {Linear, Conv2d, LayerNorm alone, chains} x activation qtype x dtype x 1-3 "
          "successive Calibration contexts with momenta from {0, 0.1, 0.5, 0.9, 0.99, random} x 1-12 batches with "
          "log-uniform magnitudes over 1e-3..1e3 (including a batch whose range is exactly qmax) x streamline on/off. "
